@@ -763,12 +763,22 @@ class FnRewriter:
             else:
                 raise ExtractError("unknown section %s" % kind)
 
+    _canary_n = 0
+
+    @staticmethod
+    def canary_id():
+        FnRewriter._canary_n += 1
+        return FnRewriter._canary_n
+
     def canaries(self):
         toks = self.toks
         bo, bc = self.body_range()
-        self.edit(toks[bo].end, toks[bo].end, "\nassert(false); // VX-CANARY entry of %s\n" % self.name, "canary")
+        # each canary is an assertion about its own uninterpreted proposition: it cannot be proved unless the context is contradictory,
+        # and (unlike `assert(false)`) a canary that fails does not make the code after it vacuous -- so canaries are independent even
+        # in functions verified without loop isolation
+        self.edit(toks[bo].end, toks[bo].end, "\nassert(vx_canary(%d)); // VX-CANARY entry of %s\n" % (FnRewriter.canary_id(), self.name), "canary")
         for n, (kw, lb) in enumerate(self.loops()):
-            self.edit(toks[lb].end, toks[lb].end, "\nassert(false); // VX-CANARY body of loop %d of %s\n" % (n + 1, self.name), "canary")
+            self.edit(toks[lb].end, toks[lb].end, "\nassert(vx_canary(%d)); // VX-CANARY body of loop %d of %s\n" % (FnRewriter.canary_id(), n + 1, self.name), "canary")
 
     def run(self):
         if self.opts.get("canary"):
